@@ -1,4 +1,4 @@
-from lena.core import LenaKeyError
+from lena.core import LenaKeyError, LenaTypeError
 from .functions import str_to_list, get_recursively
 # todo: fix imports.
 # import lena.flow.functions
@@ -12,6 +12,8 @@ class DeleteContext():
 
         *key* can be a dot-separated string or a list
         of nested string keys.
+        If it is a list (or a tuple) with a key that is not a string,
+        :exc:`.LenaTypeError` is raised.
 
         .. versionadded:: 0.6
         """
@@ -23,6 +25,10 @@ class DeleteContext():
             keyl = str_to_list(key)
         else:
             keyl = key
+            if not all(isinstance(k, str) for k in keyl):
+                raise LenaTypeError(
+                    "all keys must be strings, {} provided".format(key)
+                )
         # empty key removes the entire context.
         # Therefore it is not default.
         self._keyl = keyl
